@@ -106,3 +106,11 @@ def drop_row_chunks(chunks, i):
         if c2 > 0:
             out.append(c2)
     return out
+
+
+def tail(rng, lo, hi, tails, p=0.05):
+    """Mostly a small value in [lo, hi]; with probability p one of the deliberate tail values
+    (counts just past 8, 16, 32, 64, 128: where grouped / blocked code paths switch)."""
+    if rng.random() < p:
+        return rng.choice(list(tails))
+    return rng.randint(lo, hi)
